@@ -5,7 +5,9 @@
    every list of lines / every state and word; none is restricted to the protocol grammars.
 
    What is proved here: the time side of the property (frame grid, not before the line, inside the line's
-   transmission window, frames per word), the channel filter (full statement since the repair of previous_word) and the
+   transmission window, frames per word, no negative time), that no word raises (to_model raises exactly on a malformed
+   word of a line; since the repair of backspace / tab offset / extended character without a caption being processed),
+   the channel filter (full statement since the repair of previous_word) and the
    single action of doubled control codes; the protocol skeleton (pop-on loading invisible before EOC, EOC / EDM stamps,
    roll-up depth, text accumulation, backspace / extended characters on the model); and, for the pop-on protocol, the
    display half itself:
@@ -38,14 +40,40 @@ Theorem C08_stamps : forall talign lines, C_ok (line_stamp lines) (run_lines tal
 Proof. exact stamps_run. Qed.
 
 (* in the document: begin and end of every paragraph are frame T+k of a line of the file at that line's rate
-   (30 for ':' time codes, 30000/1001 for ';'), 1 <= k <= len+1; so is the absolute begin of every span (paint-on
-   span begins are written relative to the paragraph) *)
+   (30 for ':' time codes, 30000/1001 for ';'), 1 <= k <= len+1; so is the absolute begin g of every span; a paint-on
+   span begin is written relative to the paragraph's begin b as max(g - b, 0) (`span_ok`; since the repair of
+   to_paragraph: text painted before its paragraph begins is shown from the beginning of the paragraph) *)
 Theorem C08_times_on_line_grid : forall talign lines rs ps, to_model talign lines = Doc rs ps ->
   forall p, In p ps ->
     (forall b, q_begin p = Some b -> on_line_grid lines b) /\
     (forall e, q_end p = Some e -> on_line_grid lines e) /\
     exists paint, Forall (span_ok lines (q_begin p) paint) (q_children p).
 Proof. exact doc_times. Qed.
+
+(* no time of the document is negative: begin and end of every paragraph are positive, every span begin (absolute or
+   relative to its paragraph) is >= 0 - full statement since the repair of the paint-on span begin (it was false: a
+   paint-on caption flipped to the buffer and back by two EOCs got spans with a negative begin) *)
+Theorem C08_times_never_negative : forall talign lines rs ps, to_model talign lines = Doc rs ps ->
+  forall p, In p ps ->
+    (forall b, q_begin p = Some b -> (0 < b)%Q) /\ (forall e, q_end p = Some e -> (0 < e)%Q) /\
+    Forall span_nonneg (q_children p).
+Proof. exact doc_times_nonneg. Qed.
+(* the clamp is exact: max(x, 0) is x when x >= 0 and 0 otherwise *)
+Theorem C08_relative_begin_clamped : forall x, ((0 <= x)%Q -> qmax0 x = x) /\ ((x < 0)%Q -> qmax0 x = 0%Q).
+Proof. exact (fun x => conj (qmax0_pos x) (qmax0_neg x)). Qed.
+
+(* no word raises: a word never changes the exception flag (backspace, tab offset and extended character are ignored /
+   reduced to the character when no caption is being processed, since the repair of context.py) ... *)
+Theorem C08_no_word_raises : forall c w, c_err (step c w) = c_err c.
+Proof. exact noerr_step. Qed.
+(* ... so to_model raises exactly when a line of the file holds a malformed word (SccWord.from_str ValueError) *)
+Theorem C08_raises_iff_malformed_word : forall talign lines,
+  to_model talign lines = DocErr <-> exists l, In l lines /\ from_str l = LErr.
+Proof. exact to_model_raises_iff. Qed.
+(* when no caption is being processed (roll-up or paint-on style and nothing displayed) backspace and tab offsets do nothing *)
+Theorem C08_code_without_caption_ignored : forall c, cap_to_process c = None ->
+  backspace c = c /\ (forall k, k = kTO1 \/ k = kTO2 \/ k = kTO3 -> process_control c k = c) /\ process_control c kBS = c.
+Proof. exact no_caption_ignored. Qed.
 
 (* ... hence an exact multiple of the frame duration ... *)
 Theorem C08_times_on_grid : forall lines q, on_line_grid lines q -> exists n : Z, q = Qmake n 30 \/ q = Qmake (n * 1001) 30000.
@@ -85,8 +113,9 @@ Theorem C08_channel_filter : forall x b w c, c_err c = false -> is_dup c x = fal
 Proof. exact channel_filter. Qed.
 
 (* doubled control codes act once: the second copy of a channel-1 control-range word only clears previous_word;
-   it also consumes no frame (which is the recorded finding, Findings/C08.v C08_doubled_frame_refuted) *)
-Theorem C08_doubled_once : forall c w, c_err c = false -> is_dup c w = false -> ch1_code w = true -> c_err (step c w) = false ->
+   it also consumes no frame (which is the recorded finding, Findings/C08.v C08_doubled_frame_refuted).  Full statement
+   since the repair of backspace / tab offset: the hypothesis that the first copy raises no exception is gone *)
+Theorem C08_doubled_once : forall c w, c_err c = false -> is_dup c w = false -> ch1_code w = true ->
   step (step c w) w = with_prev (step c w) None /\ c_tc (step (step c w) w) = c_tc (step c w).
 Proof. exact doubled_once. Qed.
 
@@ -229,6 +258,22 @@ Example C08_example_clean : run_clean (ctx_init 0) [5152; 5166; 5232; 16706; 516
                             run_clean (ctx_init 0) [5152; 5152] = false.
 Proof. vm_compute. split; reflexivity. Qed.
 
+(* RDC at the start of a file: paint-on style and nothing displayed, no caption is being processed; the backspace, the tab
+   offset and the extended character that follow raise nothing (the extended character is written alone) *)
+Example C08_example_no_caption :
+  cap_to_process (step (ctx_init 0) 5161) = None /\
+  c_err (fold_left step [5161; 5153; 5922; 4658] (ctx_init 0)) = false /\
+  target_text (fold_left step [5161; 5153; 5922; 4658] (ctx_init 0)) = [199].
+Proof. vm_compute. repeat split. Qed.
+(* a paint-on caption ("A ", then "BB" with a span begin) that an EOC moves to the buffer, where "CC" is appended, and a second
+   EOC displays again four seconds later: the span painted at 10 s is shown from the beginning of the paragraph (begin 0) *)
+Example C08_example_clamped :
+  exists rs p1 p2 b1, finish (flush (run_words (ctx_init 0)
+      [(((0, 0, 10, 0), r30), [5161; 5232; 16672; 16962]); (((0, 0, 12, 0), r30), [5152; 5167]); (((0, 0, 14, 0), r30), [17219; 5167])])) = Doc rs [p1; p2] /\
+    q_children p1 = [QSpan None (mkTS (-1) false false 255) [65; 32]; QSpan (Some b1) (mkTS (-1) false false 255) [66; 66]] /\ (b1 == 1 # 30)%Q /\
+    q_children p2 = [QSpan None (mkTS (-1) false false 255) [65; 32]; QSpan (Some 0%Q) (mkTS (-1) false false 255) [66; 66; 67; 67]].
+Proof. eexists. eexists. eexists. eexists. split; [vm_compute; reflexivity|]. repeat split; reflexivity. Qed.
+
 (* the pop-on class is inhabited by a stream with doubled codes, two rows, a colour PAC, a tab offset, a mid-row italics code,
    a special and an extended character, null padding, a channel-2 block, EDM and EOC; the display then shows two rows *)
 Example C08_example_popon :
@@ -261,7 +306,9 @@ Example C08_example_rollup :
     map fst (rows_of_mem (disp s)) = [13; 15].
 Proof. split; [reflexivity|]. eexists. eexists. eexists. eexists. split; [vm_compute; reflexivity|]. split; vm_compute; reflexivity. Qed.
 
-Print Assumptions C08_stamps.  Print Assumptions C08_times_on_line_grid.  Print Assumptions C08_times_on_grid.
+Print Assumptions C08_stamps.  Print Assumptions C08_times_on_line_grid.  Print Assumptions C08_times_never_negative.
+Print Assumptions C08_relative_begin_clamped.  Print Assumptions C08_no_word_raises.  Print Assumptions C08_raises_iff_malformed_word.
+Print Assumptions C08_code_without_caption_ignored.  Print Assumptions C08_times_on_grid.
 Print Assumptions C08_not_before_line.  Print Assumptions C08_frames_per_word.  Print Assumptions C08_within_word_window_partial.
 Print Assumptions C08_stamp_never_late.  Print Assumptions C08_channel_block.  Print Assumptions C08_channel_filter.
 Print Assumptions C08_doubled_once.  Print Assumptions C08_popon_invisible_until_eoc.  Print Assumptions C08_popon_eoc_flip.
